@@ -351,3 +351,35 @@ def c11_i5(ctx):
                     yield bad("C11-I5", "forward_pdu:routing-key", at(c, t["span"]["line"]), "PDUs are routed by %s, not by (header.source_entity_id, header.transaction_sequence_number)" % ks)
     if not found:
         raise Anchor("C11-I5", "transaction_channels.entry(key) in forward_pdu")
+
+
+# ================================================================ C11-I6
+@rule("C11", "C11-I6", 3, "a new transaction is configured with the peer's entity configuration: the lookup key is the Put request's destination entity / the received PDU's source entity", also=("C07",))
+def c11_i6(ctx):
+    from common import simp, sstr
+
+    n = 0
+    for fn_name, want, what in (("process_primitive", r"destination_entity_id", "the Put request's destination_entity_id"), ("forward_pdu", r"source_entity_id|^key\.0$", "the PDU's source entity (the routing key's first component)")):
+        f = _daemon_fn(ctx, "C11-I6", fn_name)
+        for c in _body(ctx, f):
+            ebu = ExprBuilder(ctx.prog, c, user_stop=True)
+            ebf = ExprBuilder(ctx.prog, c)
+            for b, t in c.all_calls():
+                e = ebu.call(b, t)
+                if not ((callee_name(e) or "").endswith("HashMap::get") and e[3] and "entity_configs" in expr_str(e[3][0])):
+                    continue
+                n += 1
+                k_u = sstr(e[3][1])
+                k_f = sstr(ebf.call(b, t)[3][1])
+                key = "%s:entity_configs.get#%d" % (fn_name, n)
+                srcs = {k_u, k_f}
+                m = re.match(r"^(\w+)((?:\.\w+)*)$", k_u)
+                if m:
+                    for d in ebu.var_defs(m.group(1)):
+                        srcs.add(sstr(d) + m.group(2))
+                if any(re.search(want, x) for x in srcs) and not any("self.entity_id" in x for x in srcs):
+                    yield ok("C11-I6", key, at(c, t["span"]["line"]), "looked up under %s" % k_u)
+                else:
+                    yield bad("C11-I6", key, at(c, t["span"]["line"]), "the entity configuration is looked up under %s, not %s: the transaction runs with another entity's (or the default) segment size, limits and fault handlers" % (sorted(srcs), what))
+    if n == 0:
+        raise Anchor("C11-I6", "entity_configs.get(..) in process_primitive / forward_pdu")
